@@ -509,6 +509,7 @@ func isLoadOf(v ssa.Value, cell ssa.Value) bool {
 }
 
 func c24(r *core.Run) {
+	psliceCopyOnWrite(r, "C24.W3")
 	w := r.W
 	c24KnownRemovals(r)
 	c24ProtectReplaced(r)
